@@ -79,7 +79,9 @@ def make_model(rng):
     return {"nargs": nargs, "sites": sites, "nested": nested, "lo": lo, "hi": hi}
 
 
-def build_model(md):
+def build_model(md, kw=False):
+    """kw=True: the last model argument is a keyword parameter with a default (7.0) that the trace's
+    recorded keyword arguments always override"""
     sites, nargs = md["sites"], md["nargs"]
     lo, hi = md["lo"], md["hi"]
 
@@ -101,9 +103,7 @@ def build_model(md):
                 return vsub
             vsubs[s0["a"]] = mk(s0["base"], s0["sig"], s0["a"])
 
-    @gen
-    def model(*args):
-        env = list(args)
+    def body(env):
         i = 0
         while i < len(sites):
             if md["nested"] and i == lo:
@@ -123,6 +123,16 @@ def build_model(md):
             env.append(normal(qev(s["mu"], env), s["sig"]) @ name(s["a"]))
             i += 1
         return env[-1]
+
+    if kw:
+        @gen
+        def model_kw(*args, kwlast=7.0):
+            return body(list(args) + [kwlast])
+        return model_kw
+
+    @gen
+    def model(*args):
+        return body(list(args))
     return model
 
 
@@ -207,7 +217,13 @@ def scripted(kind, md, model, args, xs, s, rng):
     noise = [rng.choice([-2, -1, -0.5, 0, 0.25, 0.5, 1, 1.5]) for _ in order]
     u = rng.choice([0.05, 0.3, 0.5, 0.8, 0.97])
     nsteps = rng.choice([1, 2, 3])
-    tr, _ = model.generate(choices_dict(md, xs), *[jnp.float32(a) for a in args])
+    use_kw = bool(len(args) >= 1 and rng.random() < 0.4)
+    if use_kw:
+        # the model's last argument passed (and recorded in the trace) by keyword
+        tr, _ = build_model(md, kw=True).generate(choices_dict(md, xs), *[jnp.float32(a) for a in args[:-1]],
+                                                  kwlast=jnp.float32(args[-1]))
+    else:
+        tr, _ = model.generate(choices_dict(md, xs), *[jnp.float32(a) for a in args])
     rec, it = [], iter(noise)
     saved = (mcmc.normal, mcmc.uniform, mcmc.jnp)
     def scripted_sample(loc=0.0, scale=1.0, sample_shape=(), **k):
@@ -219,7 +235,7 @@ def scripted(kind, md, model, args, xs, s, rng):
     mcmc.uniform = types.SimpleNamespace(sample=lambda lo=0.0, hi=1.0, **k: jnp.float32(lo) + jnp.float32(u) * (jnp.float32(hi) - jnp.float32(lo)))
     mcmc.jnp = JnpProxy(jnp, rec)
     c = {"kind": kind, "model": md, "args": args, "xs": xs, "sel": s, "order": order, "eps": eps,
-         "noise": noise, "u": u, "nsteps": nsteps}
+         "noise": noise, "u": u, "nsteps": nsteps, "kwargs_model": use_kw}
     try:
         from genjax.state import state
         if kind == "mala":
